@@ -142,10 +142,25 @@ def impl_write(Raw, packets, thr, secret):
     if secret is not None:
         cipher = encryption.create_AES_cipher(secret)
         out = encryption.EncryptedSocketWrapper(sock, cipher.encryptor(), cipher.decryptor())
-    for pid, data, _k in packets:
+    import reent
+    for n, (pid, data, _k) in enumerate(packets):
         p = Raw(context=ConnectionContext(protocol_version=757))
         p.id = pid
         p.data = data
+        if n % 2 == 1:
+            # writes that fail (another connection's socket is gone; a field cannot be encoded) in between: the caller
+            # handles the error, and the next frame on this stream must be unaffected
+            try:
+                p.write(reent.FailingSink(n % 4 // 2), thr)
+            except Exception:
+                pass
+            q = Raw(context=ConnectionContext(protocol_version=757))
+            q.id = pid
+            q.data = None
+            try:
+                q.write(sim.RecSocket(), thr)
+            except Exception:
+                pass
         p.write(out, thr)
     return sock.sends
 
